@@ -286,6 +286,8 @@ def judge(path, prop, keys, hdrs):
                              "generate returned a token where the pinning model forbids production", ev)
                     elif produced and eff_key and halg != P:
                         viol("produce:header-alg-not-pinned:route%d" % route, "generated token's header alg differs from the pinned algorithm", ev)
+                    elif produced and not eff_key and halg != 0:
+                        viol("produce:header-alg-not-pinned:keyless:route%d" % route, "a key-less builder's token names an algorithm (%s) although none was pinned" % halg, ev)
                     elif produced and eff_key and not refvalid:
                         viol("produce:signature-invalid", "generated token is not reference-verifiable under the pinned alg", ev)
                 elif prop == "C03":
